@@ -19,7 +19,7 @@ func init() {
 		Rule: "E1 over the C05 request space (n in 2..4, m in {1,2}, values {0,1,2} full product, options within 2 deviations; n=4/m=2 within 1): for every instance " +
 			"(a) every pair with a>=b on all signed criteria: asc(a)<=asc(b), desc(a)<=desc(b), b in links(a); (b) identical alternatives: identical indices, mutual links; " +
 			"(c) every permutation of the listing (all n!; quick tier n=4/m=2: rotations+reversal): same per-id indices; (d) all weights k x {0.5,2,4} (quick n=4/m=2: x2): same indices. " +
-			"Plus (e) the dominance clauses on a three-criteria grid in which all criteria may veto (n=3, values {0,1,2}^9, 27 threshold layouts x 2 weight vectors) and (f) dominance at the level of the credibility matrix (a dominates b: sigma(a,b)=1, row a >= row b, column a <= column b) on every 3x3 matrix over 5 levels and every 4x4 matrix over 3 levels (thorough: 7 / 5 levels) x 4 distillation functions through the exported distillation entry points. " +
+			"Plus (d') directed near-copy grids (a, a worsened by one grid step on one criterion, arbitrary x) under wide veto zones with 2 and 3 criteria, (e) the dominance clauses on a three-criteria grid in which all criteria may veto (n=3, values {0,1,2}^9, 27 threshold layouts x 2 weight vectors) and (f) dominance at the level of the credibility matrix (a dominates b: sigma(a,b)=1, row a >= row b, column a <= column b) on every 3x3 matrix over 5 levels and every 4x4 matrix over 3 levels (thorough: 7 / 5 levels) x 4 distillation functions through the exported distillation entry points. " +
 			"distinct_nontrivial = distinct base responses that contain at least one dominating pair and >=2 classes.",
 		Assume: []string{"metamorphic relations are checked between runs of the implementation itself"},
 		Run:    c06Run,
@@ -314,6 +314,53 @@ func c06VetoAndMatrixGrids(s *Shard) {
 			s.Report(c06Dominance(c))
 		})
 	})
+	// directed grids: a dominating alternative, its near-copy that is one grid step worse on one criterion, and an arbitrary
+	// third alternative, under wide veto zones (many partial-discordance levels, differences that hit q, p and v exactly)
+	type dg struct {
+		vals []float64
+		thr  [][]thr
+		ks   [][]float64
+	}
+	dgs := []dg{
+		{[]float64{0, 1, 4, 7}, [][]thr{{{Q: 1, P: 2, V: 4}, {Q: 1, P: 3, V: 6}}, {{Q: 1, P: 3, V: 6}, {Q: 1, P: 2, V: 4}}}, [][]float64{{2, 1}, {1, 1}, {1, 2}}},
+		{[]float64{0, 6, 7, 10, 11, 20}, [][]thr{{{Q: 1, P: 2, V: 5}, {Q: 1, P: 2, V: 12}, {Q: 1, P: 2, V: 12}}, {{Q: 1, P: 2, V: 12}, {Q: 1, P: 2, V: 12}, {Q: 1, P: 2, V: 12}}}, [][]float64{{6, 2, 2}, {2, 2, 2}}},
+	}
+	for _, g := range dgs {
+		m := len(g.thr[0])
+		dims := make([]int, 2*m)
+		for i := range dims {
+			dims[i] = len(g.vals)
+		}
+		Product(dims, func(idx []int) {
+			if !s.Take() {
+				return
+			}
+			a, x := make([]float64, m), make([]float64, m)
+			for j := 0; j < m; j++ {
+				a[j], x[j] = g.vals[idx[j]], g.vals[idx[m+j]]
+			}
+			for j := 0; j < m; j++ {
+				if idx[j] == 0 {
+					continue
+				}
+				b := append([]float64{}, a...)
+				b[j] = g.vals[idx[j]-1]
+				for _, th := range g.thr {
+					for _, k := range g.ks {
+						types := make([]string, m)
+						for t := range types {
+							types[t] = "gain"
+						}
+						cfg := eleCfg{N: 3, Vals: [][]float64{a, b, x}, Types: types, Thr: th, K: k, Dist: eleDists[0]}
+						c := &Case{Prop: "C06", Kind: "veto", Params: M{"cfg": cfg}}
+						s.Evals++
+						s.Begin(c)
+						s.Report(c06Dominance(c))
+					}
+				}
+			}
+		})
+	}
 	// credibility matrices
 	type mg struct {
 		n  int
